@@ -42,11 +42,17 @@ end
 
 instance : DecidableEq Xml := decEq
 
-@[simp] def tag : Xml → String | .node t _ _ _ _ => t
-@[simp] def attrs : Xml → List (String × String) | .node _ a _ _ _ => a
-@[simp] def text : Xml → Option String | .node _ _ x _ _ => x
-@[simp] def tail : Xml → Option String | .node _ _ _ l _ => l
-@[simp] def kids : Xml → List Xml | .node _ _ _ _ k => k
+def tag : Xml → String | .node t _ _ _ _ => t
+def attrs : Xml → List (String × String) | .node _ a _ _ _ => a
+def text : Xml → Option String | .node _ _ x _ _ => x
+def tail : Xml → Option String | .node _ _ _ l _ => l
+def kids : Xml → List Xml | .node _ _ _ _ k => k
+
+@[simp] theorem tag_node (t a x l k) : (Xml.node t a x l k).tag = t := rfl
+@[simp] theorem attrs_node (t a x l k) : (Xml.node t a x l k).attrs = a := rfl
+@[simp] theorem text_node (t a x l k) : (Xml.node t a x l k).text = x := rfl
+@[simp] theorem tail_node (t a x l k) : (Xml.node t a x l k).tail = l := rfl
+@[simp] theorem kids_node (t a x l k) : (Xml.node t a x l k).kids = k := rfl
 
 /-- `e.tag = t` (assignment to the tag of a copy) -/
 def withTag (x : Xml) (t : String) : Xml := .node t x.attrs x.text x.tail x.kids
